@@ -36,6 +36,12 @@ def build(key, variant, i):
         'data_prefix': lambda x, lo, k: is_bytes(x) and len(x) >= k and bytes(x[:k]) == F[lo:lo + k],
         'card': len, 'zmin': min, 'zmax': max, 'val': lambda x: x,
     }
+    if qual.endswith('.__init__'):
+        r2 = BufferedReader.__new__(BufferedReader)
+        env.update(self=r2, reader=io.BytesIO(F), buffersize=bs, data=None, offset=off, size=size,
+                   max_buffers=int(i['max_buffers']), fpos=0)
+        return {'env': env, 'old_env': dict(env), 'call': lambda: r2.__init__(env['reader'], buffersize=bs, offset=off, size=size,
+                                                                             max_buffers=int(i['max_buffers']))}
     if qual.endswith('.cache'):
         env['bucket'] = int(i['bucket'])
         call = lambda: r.cache(int(i['bucket']))
